@@ -79,4 +79,13 @@ TEXTS = {
   "note": BASE_NOTE + " cw-storage-plus range/bound semantics.",
   "technique": "iterator-chain shape + provenance of clamp and cursor on MIR, compiler-evaluated constants",
   "engine": "E-STRUCT"},
+ "C08": {
+  "level": "Decides what the repository owns of this property: each of the 21 Uint256/Decimal256 operators' MIR bodies is interpreted over axiomatised aborting U256 primitives into an exact "
+           "rational term with floor atoms and must EQUAL the reference (single rounding of the ideal result) on every path, including the zero-operand shortcuts (checked under "
+           "the path's is_zero facts); explicit aborts must be exactly the allowed ones (zero divisor, negative difference) and must not be missing on any returning path; no "
+           "wrapping/overflowing/saturating/truncating call or narrowing cast outside split_u128; comparisons are the derived ones; width conversions are guarded by both upper limbs "
+           "and agree on limb order. For all 256-bit operands at once (symbolic), not sampled.",
+  "note": BASE_NOTE + " Multi-limb carries and products near 2^256 inside bigint::U256 are NOT analysed (external crate, axiomatised).",
+  "technique": "abstract interpretation of MIR into rational terms with hash-consed floor atoms; term equality against reference summaries; abort-site classification",
+  "engine": "E-ROUND + E-STRUCT"},
 }
